@@ -265,3 +265,51 @@ func vh_C12_UtilInstance() {
 	vfAssert("send-after-close-dropped", len(log) == 2)
 	vfReach("end")
 }
+
+// work accepted BEFORE Close (its Send / Post has returned) but still queued in a buffered mailbox when Close is called
+// is processed exactly once all the same; only work submitted after Close returned is dropped
+func vh_C12_CloseWithBacklog() {
+	capacity := vfRange("cap", 1, 2)
+	gate := make(chan struct{})
+	var log []int
+	actorSide := vfChoose("actor", 2) == 1
+	var post func(i int)
+	var closeIt func()
+	if actorSide {
+		a := ActorNewByOptionsGenerics(func(ac *ActorDef[int], m int) {
+			if m == 0 {
+				<-gate // busy with the first message while the others queue up
+			}
+			log = append(log, m)
+		}, make(chan int, capacity), map[string]interface{}{})
+		post, closeIt = func(i int) { a.Send(i) }, a.Close
+	} else {
+		h := Handler.NewByCh(make(chan func(), capacity))
+		post, closeIt = func(i int) {
+			h.Post(func() {
+				if i == 0 {
+					<-gate
+				}
+				log = append(log, i)
+			})
+		}, h.Close
+	}
+	post(0)
+	vfQuiesce() // the mailbox goroutine has taken message 0 and waits at the gate
+	for i := 1; i <= capacity; i++ {
+		post(i) // fits the buffer: returns at once
+	}
+	vfNoPanic("nopanic-close-send", func() {
+		closeIt()
+		post(99) // after Close returned: dropped
+	})
+	close(gate)
+	vfQuiesce()
+	vfAssert("each-exactly-once-count", len(log) == capacity+1)
+	ok := len(log) == capacity+1
+	for i := 0; ok && i <= capacity; i++ {
+		ok = log[i] == i
+	}
+	vfAssert("per-sender-order-and-once", ok)
+	vfReach("end")
+}
